@@ -89,6 +89,48 @@ fn strings() -> Vec<String> {
     vec![String::new(), "plain ascii".into(), "caf\u{e9}".into(), "\u{20ac}uro".into(), "\u{1F600} emoji".into(), "nul\u{0}inside".into(), "x".repeat(255)]
 }
 
+/// Invalid encodings of a group-data extension derived from a valid one: every k-th prefix, trailing bytes, every
+/// fixed-length field one short and one long (and 1 / 5 bytes), version 0, invalid UTF-8, bad relay strings.
+/// Used by C06 to put them inside a commit of a hostile admin.
+pub fn hostile_group_data(base: &NostrGroupDataExtension, step: usize) -> Vec<(String, Vec<u8>)> {
+    let raw = RawExt::of(base);
+    let good = raw.encode();
+    let mut out: Vec<(String, Vec<u8>)> = Vec::new();
+    let mut k = 0;
+    while k < good.len() {
+        out.push((format!("truncated-at-{k}"), good[..k].to_vec()));
+        k += step.max(1);
+    }
+    let mut b = good.clone();
+    b.push(0);
+    out.push(("trailing-byte".into(), b));
+    for (field, full) in [("image_hash", 32usize), ("image_key", 32), ("image_nonce", 12), ("image_upload_key", 32)] {
+        for len in [1usize, 5, full - 1, full + 1] {
+            let mut r = raw.clone();
+            let v = vec![1u8; len];
+            match field {
+                "image_hash" => r.image_hash = v,
+                "image_key" => r.image_key = v,
+                "image_nonce" => r.image_nonce = v,
+                _ => r.image_upload_key = v,
+            }
+            out.push((format!("{field}-{len}-bytes"), r.encode()));
+        }
+    }
+    let mut r = raw.clone();
+    r.version = 0;
+    out.push(("version-0".into(), r.encode()));
+    let mut r = raw.clone();
+    r.name = vec![0xff, 0xfe];
+    out.push(("name-invalid-utf8".into(), r.encode()));
+    if !raw.relays.is_empty() {
+        let mut r = raw.clone();
+        r.relays[0] = b"not a url".to_vec();
+        out.push(("relay-not-a-url".into(), r.encode()));
+    }
+    out
+}
+
 pub fn check_c15(rep: &mut Report, thorough: bool) {
     let keys: Vec<Keys> = (0..3).map(|_| Keys::generate()).collect();
     let admins_sets: Vec<Vec<PublicKey>> = (0..=3).map(|n| keys.iter().take(n).map(|k| k.public_key()).collect()).collect();
